@@ -118,7 +118,33 @@ pub struct Ctx<'a> {
     pub mode: &'a str,
 }
 
+/// Shorten long strings in reports (cases with 1 MiB keys exist).
+pub fn clip(s: &str) -> String {
+    if s.len() <= 160 {
+        return s.to_string();
+    }
+    let head: String = s.chars().take(60).collect();
+    let tail: String = s.chars().rev().take(40).collect::<Vec<_>>().into_iter().rev().collect();
+    format!("{}...({} bytes)...{}", head, s.len(), tail)
+}
+
 fn describe(cfg: &ClientCfg, row: &Row, form: Form, key: &str, val: &Val, steps: &[Step]) -> Json {
+    let key = &clip(key);
+    let cfg = &ClientCfg {
+        prefix: clip(&cfg.prefix),
+        tags: cfg.tags.iter().map(|(k, v)| (k.as_deref().map(clip), clip(v))).collect(),
+        container: cfg.container.as_deref().map(clip),
+    };
+    let steps: Vec<Step> = steps
+        .iter()
+        .map(|s| match s {
+            Step::Tag(k, v) => Step::Tag(clip(k), clip(v)),
+            Step::TagValue(v) => Step::TagValue(clip(v)),
+            Step::Container(c) => Step::Container(clip(c)),
+            other => other.clone(),
+        })
+        .collect();
+    let steps = &steps[..];
     Json::obj()
         .set("entry_point", row.name)
         .set("form", format!("{:?}", form))
@@ -143,6 +169,7 @@ fn violation(rep: &mut Report, mut props: Vec<&'static str>, sig: &str, what: St
             }
         }
     });
+    let what = if what.len() > 3000 { format!("{} ...({} bytes)", what.chars().take(1500).collect::<String>(), what.len()) } else { what };
     rep.violation(Violation {
         props,
         sig: format!("fmt/{}", sig),
@@ -207,7 +234,7 @@ pub fn check_case(rep: &mut Report, rig: &Rig, cfg: &ClientCfg, row: &Row, form:
             let pieces = reffmt::expected(cfg, row, key, &vals, &sec);
             if let Err(why) = reffmt::matches(&line, &pieces) {
                 let props = classify(&line, cfg, row, key, &vals, &sec);
-                violation(rep, props, "line-differs", format!("line {:?} is not the expected {:?}: {}", line, render(&pieces), why), case());
+                violation(rep, props, "line-differs", format!("line {:?} is not the expected {:?}: {}", clip(&line), clip(&render(&pieces)), clip(&why)), case());
                 return Some(line);
             }
             // the returned metric is the emitted text
